@@ -22,17 +22,19 @@ import (
 
 // HandlerSpec scripts one handler.
 type HandlerSpec struct {
-	GoChannel   bool     `json:"g,omitempty"`  // subscribe to the shared GoChannel (topic "t<h>") instead of a scripted subscriber
-	NoPublisher bool     `json:"np,omitempty"` // AddNoPublisherHandler
-	Outcomes    []string `json:"o,omitempty"`  // per invocation, cyclic: ok | out | pubfail | err | panic  (default ok)
-	GateAt      int      `json:"ga,omitempty"` // the n-th invocation (1-based) blocks on the gate; 0 = none
-	LastOnClose int      `json:"lc,omitempty"` // scripted subscriber hands over this many messages inside its Close
-	LastOnCtx   int      `json:"lx,omitempty"` // … when its context ends
-	IgnoreCtx   bool     `json:"ic,omitempty"` // scripted subscriber ends only through Close
-	SlowMs      int      `json:"sl,omitempty"` // every invocation takes this long (a duration below CloseTimeout)
-	Preload     int      `json:"pl,omitempty"` // messages the scripted subscriber has ready at the moment Subscribe is called
-	SubGate     bool     `json:"sg,omitempty"` // Subscribe blocks (a slow broker round trip) until the program's `subgo`
-	SubFail     int      `json:"sf,omitempty"` // the first n Subscribe calls fail ("broker temporarily unavailable")
+	GoChannel   bool     `json:"g,omitempty"`   // subscribe to the shared GoChannel (topic "t<h>") instead of a scripted subscriber
+	NoPublisher bool     `json:"np,omitempty"`  // AddNoPublisherHandler
+	Outcomes    []string `json:"o,omitempty"`   // per invocation, cyclic: ok | out | pubfail | err | panic  (default ok)
+	GateAt      int      `json:"ga,omitempty"`  // the n-th invocation (1-based) blocks on the gate; 0 = none
+	LastOnClose int      `json:"lc,omitempty"`  // scripted subscriber hands over this many messages inside its Close
+	LastOnCtx   int      `json:"lx,omitempty"`  // … when its context ends
+	IgnoreCtx   bool     `json:"ic,omitempty"`  // scripted subscriber ends only through Close
+	SlowMs      int      `json:"sl,omitempty"`  // every invocation takes this long (a duration below CloseTimeout)
+	Preload     int      `json:"pl,omitempty"`  // messages the scripted subscriber has ready at the moment Subscribe is called
+	SubGate     bool     `json:"sg,omitempty"`  // Subscribe blocks (a slow broker round trip) until the program's `subgo`
+	SubFail     int      `json:"sf,omitempty"`  // the first n Subscribe calls fail ("broker temporarily unavailable")
+	PubCloseErr bool     `json:"pce,omitempty"` // the scripted publisher's Close returns an error (a broker connection that is already gone);
+	// the router logs it - a handler that ends is ended all the same: stopped, removed, counted for the self-close
 }
 
 // Scenario = handlers + a lifecycle program executed by the controller.
@@ -371,7 +373,7 @@ func Run(sc Scenario) *Result {
 						fail = true
 					}
 				}
-				pub = &ScriptPub{rec: rec, h: h, Fail: fail}
+				pub = &ScriptPub{rec: rec, h: h, Fail: fail, CloseErr: spec.PubCloseErr}
 			}
 			rec.Log("ahc", itoa(h))
 			ok = callBounded("AddHandler", func() {
